@@ -69,6 +69,21 @@ CHECKS = {
               'unsliced values also compared across slicer subsets.',
               'small scope: total rows <=3/4; >=1 row per batch; trusted: numpy, '
               'the group-by oracle, fixture aggregates'),
+    'C03': _c('E1-vsched', 'model_checking',
+              _E1 + ' + exhaustive enumeration of execution strategies',
+              'Programs from a record-wise grammar (<=3 operators from apply / '
+              'assign / select / filter + re-batching, 8 aggregate choices incl. a '
+              'slicer) over datasets of 0-5 (7) records: every stage grouping '
+              '(fused / chained), shard counts 1-4 through data_source(ds.shard) and '
+              'make(shard=) + merge_states, update_state per record; num_threads '
+              '1-3 under E1 (1 worker <=2 preemptions, 2 workers <=1, 3 workers free '
+              'switches; thorough +1 on a subset); the interleaved in-process stage '
+              'runner (totals 0-5, buffers 0-2) at preemption bound 0 and delay '
+              'bound 1. Oracle: the single-threaded fused unsharded run (batch '
+              'multiset, agg_result, returned AggregateResult); all helper threads '
+              'finish.',
+              _GIL + '; sink is not in the grammar; exact (transparent) aggregates; '
+              'num_threads only in curated configurations'),
     'C04': _c('E1-vsched', 'model_checking', _E1,
               'The real IteratorQueue driven by 1-3 producer threads '
               '(enqueue_from_iterator) and 1-2 consumer threads (get, get_batch, '
